@@ -291,23 +291,34 @@ mod regex_impl {
                     }
                     i += 2;
                 } else if next.is_ascii_digit() {
-                    // $1-$99
-                    let mut num_str = String::new();
-                    let mut j = i + 1;
-                    while let Some(&ch) = chars.get(j) {
-                        if !ch.is_ascii_digit() || num_str.len() >= 2 {
-                            break;
+                    // $1-$99: a two-digit reference if the pattern has that many groups, else a
+                    // one-digit reference; a reference to a group the pattern does not have
+                    // stays in the result literally. A group that did not participate is "".
+                    let group_count = caps.len().saturating_sub(1);
+                    let d1 = next.to_digit(10).unwrap_or(0) as usize;
+                    let d2 = chars
+                        .get(i + 2)
+                        .and_then(|ch| ch.to_digit(10))
+                        .map(|d| d as usize);
+                    let (group, consumed) = match d2 {
+                        Some(d2) if d1 * 10 + d2 >= 1 && d1 * 10 + d2 <= group_count => {
+                            (Some(d1 * 10 + d2), 3)
                         }
-                        num_str.push(ch);
-                        j += 1;
+                        _ if d1 >= 1 && d1 <= group_count => (Some(d1), 2),
+                        _ => (None, 2),
+                    };
+                    match group {
+                        Some(g) => {
+                            if let Some(m) = caps.get(g) {
+                                result.push_str(m.as_str());
+                            }
+                        }
+                        None => {
+                            result.push('$');
+                            result.push(next);
+                        }
                     }
-                    if let Ok(group_num) = num_str.parse::<usize>()
-                        && let Some(m) = caps.get(group_num)
-                    {
-                        result.push_str(m.as_str());
-                    }
-                    // If group doesn't exist, replace with empty string
-                    i = j;
+                    i += consumed;
                 } else {
                     // Not a special sequence, keep the $
                     result.push('$');
